@@ -514,12 +514,12 @@ func (s *verSys) Check() ([]*engine.Violation, int64) {
 func runVer(c *engine.Ctx, prop string) {
 	keys := []string{"a", "b/c"}
 	bodies := []string{"A", "B"}
-	depth, maxEnt := 4, 3
+	depth, maxEnt := 5, 3
 	if !quick(c) {
-		depth, maxEnt = 6, 4
+		depth, maxEnt = 7, 4
 	}
 	if prop == "C13" && !quick(c) {
-		depth = 5
+		depth = 6
 	}
 	name := prop + "/mem"
 	engine.RunSeq(c, engine.SeqSpec{Name: name, World: "mem", MaxDepth: depth,
